@@ -100,6 +100,14 @@ impl Lfo {
 /// LFO waveshapes are represented here
 ///
 /// All waveshapes are simultaneously available
+#[cfg(feature = "verif-hooks")]
+impl Lfo {
+    /// Verification hook: raw value of the phase accumulator
+    pub fn verif_acc(&self) -> u32 {
+        self.phase_accumulator.verif_acc()
+    }
+}
+
 #[derive(Clone, Debug, Copy, PartialEq)]
 pub enum Waveshape {
     Sine,
